@@ -545,7 +545,7 @@ PROPS = {
     "C17": dict(jobs=c17_jobs, must_reach=["end"], level="other", race=True,
                 explanation="Non-interference certificate decided by symbolic execution: for each operation named in the property (print, encode, list, fill incl. ellipsis expansion, producers, both parsers) on symbolic shared objects, the engine's write-set monitor shows on every explored path that the call stores only into memory it allocated itself (no store into any cell reachable from the shared items/messages/arguments or from any package-level variable of the repository; stores under a held sync.Mutex or inside sync.Once.Do are exempt) and that the result is identical under four map iteration orders. Calls that only read shared memory cannot race and cannot influence each other, whatever the schedule. Real schedules are not executed.",
                 level_text="Sufficient-condition certificate (not schedule exploration): symbolic execution with a ghost write-set monitor over all cells reachable from the shared objects and package-level variables, plus map-iteration-order independence of every result.",
-                level_note="The engine is single-threaded: Go scheduler interleavings are not enumerated and the race detector is not run. Standard-library entry points (regexp, fmt, strconv, unicode) are trusted to be goroutine-safe as documented. A change that starts goroutines makes the check INCONCLUSIVE.",
+                level_note="The engine is single-threaded: Go scheduler interleavings are not enumerated. The deciding step is the write-set certificate; witnesses, sampled paths and the inputs of paths the engine cannot finish are replayed natively in 8 goroutines under the race detector (confirmation of witnesses, not exploration of schedules). Standard-library entry points (regexp, fmt, strconv, unicode) are trusted to be goroutine-safe as documented. A change that starts goroutines makes the affected paths INCONCLUSIVE for the engine; only a data race that the native replay of their inputs happens to show is then reported.",
                 technique="symbolic execution of go/ssa with a ghost write-set monitor (non-interference certificate) + SMT-decided path feasibility",
                 bounds={"operations": 15, "objects": "one template message (variables of all kinds, ellipsis), one complete message; constants symbolic", "map orders": 4},
                 outside=["actual concurrent schedules", "operations on objects outside the menu"]),
@@ -562,7 +562,7 @@ PROPS = {
     "C19": dict(jobs=c19_jobs, must_reach=["end"],
                 level_text="Bounded model checking, relational: Parse(t1 sep t2 [sep t3]) and Parse of each part run in the same symbolic path (holes: digits, names, one arbitrary white-space separator byte); message count, printed form, variables, header fields and the position-shifted warnings are compared.",
                 level_note="Trusted: go/ssa, engine, z3. Texts come from a menu of 7 accepted skeletons that reuse variable names and contain ellipses, header-only messages, names and terminators in every position.",
-                bounds={"quick": "7x7 text pairs x 8 separators, 5 triples", "thorough": "all pairs x separators, 167 triples"},
+                bounds={"quick": "9x9 text pairs x 8 separators, 5 triples; plus fixed pairs with a text of 70 messages, trees 24 and 130 levels deep, lists of 110+60 siblings, a 140,000-column line, runs of non-ASCII blanks, 34 warnings", "thorough": "all pairs x separators, 167 triples"},
                 outside=["texts outside the menu", "separators longer than 4 bytes"]),
     "C06": dict(jobs=c06_jobs, must_reach=["end"],
                 level_text="Bounded model checking of totality: the whole lexer+parser is executed symbolically on arbitrary byte strings, on SML skeletons with arbitrary bytes inserted at every position, and on texts whose size/count/code numbers have symbolic digits; on every path no panic escapes, the run terminates (channel deadlock and fuel exhaustion are reported), errors imply no messages, diagnostics carry an in-range 'Ln x, Col y: ', and no allocation request is sized by a number in the text (witnesses measured natively).",
@@ -572,17 +572,17 @@ PROPS = {
     "C15": dict(jobs=c15_jobs, must_reach=["end"],
                 level_text="Bounded model checking: the digits of both bounds of every declaration form are symbolic and run through the real lexer, strconv.Atoi (interpreted from SSA, overflow clamp included) and parser; accept/reject and the size error's text and position are compared with the bounds computed by the harness.",
                 level_note="Trusted: go/ssa, engine, z3.",
-                bounds={"quick": "7 item types x 4 forms x counts 0..2, 1 digit per bound (+ a blank-padded variant with 2 digits)", "thorough": "14 types, counts 0..4, up to 5 symbolic digits per bound; bounds of 20 digits (19 concrete nines + 1 symbolic digit) that overflow int"},
+                bounds={"quick": "7 item types x 4 forms x counts 0..2, 1 digit per bound (+ a blank-padded variant with 2 digits, one arbitrary white-space byte of {SP,TAB,LF,CR} as padding, one element being a variable)", "thorough": "14 types, counts 0..4, up to 5 symbolic digits per bound; bounds of 20 digits (19 concrete nines + 1 symbolic digit) that overflow int"},
                 outside=["declarations preceded by whitespace (position shift is C08)", "counts above 4"]),
     "C05": dict(jobs=c05_jobs, must_reach=["end"],
                 level_text="Bounded model checking: message texts with literal holes whose every digit/character is symbolic are run through the real lexer and parser (regexp, strconv.ParseInt/ParseUint interpreted from their SSA); the denoted value is computed by the harness from the hole bytes and compared with the stored bytes; unrepresentable literals must give an error and no message.",
                 level_note="Trusted: go/ssa, engine incl. regexp simulation and string models, z3. Float text->value conversion is trusted strconv (concrete menu only).",
-                bounds={"quick": "integer literals: decimal k<=3 digits, hex 2, octal 3, binary 8, plus literals straddling the limit of every width (1 symbolic trailing digit) in all four bases; strings k<=3 bytes", "thorough": "decimal k<=5, hex 8, octal 6, binary 16 symbolic digits, plus literals straddling the limit of every width (1-2 symbolic trailing digits) in all four bases; strings k<=5"},
+                bounds={"quick": "integer literals: decimal k<=3 digits, hex 2, octal 3, binary 8, plus literals straddling the limit of every width and 2^64 (1 symbolic trailing digit) and literals one digit longer than 2^64-1 in all four bases; signs without digits; strings k<=3 bytes", "thorough": "decimal k<=5, hex 8, octal 6, binary 16 symbolic digits, plus literals straddling the limit of every width (1-2 symbolic trailing digits) in all four bases; strings k<=5"},
                 outside=["decimal literals with a leading zero, '_' separators, '+' on unsigned items, '-0' on unsigned items (unspecified)", "control characters inside quoted strings other than CR/LF", "the text->float mapping of strconv.ParseFloat"]),
     "C11": dict(jobs=c11_jobs,
                 level_text="Bounded model checking of the aliasing channels: every slice/map passed in or returned is mutated in place by a symbolic non-zero mask at a chosen position, and all observers of every pre-existing object are compared with their snapshots; the engine's slices share backing arrays exactly as Go's do.",
                 level_note="Trusted: go/ssa, engine (slice aliasing and append growth follow the host runtime), z3. Scenarios are fixed call sequences (constructor, producers, fill, encode, decode), not arbitrary histories.",
-                bounds={"scenarios": 10, "mutation": "one byte position (chosen, all positions explored) xor an arbitrary non-zero mask"},
+                bounds={"scenarios": 16, "mutation": "one byte position (chosen, all positions explored) xor an arbitrary non-zero mask"},
                 outside=["histories longer than the scenario sequences", "concurrent mutation (C17)"]),
     "C10": dict(jobs=c10_jobs,
                 level_text="Bounded exhaustive symbolic exploration: every list template within the bound (item kinds, ellipsis positions, nesting are decisions) x every assignment of repeat counts 0..R or unfilled, compared with a reference expander written from the documentation.",
@@ -592,7 +592,7 @@ PROPS = {
     "C16": dict(jobs=c16_jobs,
                 level_text="Bounded exhaustive symbolic exploration of tree shapes (every choice of kinds, variable positions, ellipsis positions is a decision explored by the engine) under three map iteration orders; Variables() is compared with the construction order and with the names tokenised from String().",
                 level_note="Structural property: the solver decides feasibility of shape choices only; exhaustiveness is over shapes and iteration orders within the bound. Trusted: go/ssa, engine, harness tokenizer.",
-                bounds={"quick": "leaves n<=2; lists depth 1 width<=2", "thorough": "width<=3 or depth 2"},
+                bounds={"quick": "leaves n<=2; lists depth 1 width<=2; one U1 item with 66,000 variables", "thorough": "width<=3 or depth 2; 66,000-70,000 variables in a U1, BOOLEAN and B item"},
                 outside=["NewListNode(NewEmptyItemNode()) (undefined template)", "constants other than the fixed menu (their independence is C09)"]),
     "C18": dict(jobs=c18_jobs,
                 level_text="Bounded model checking of short producer sequences: every accessor, Header, String and ToBytes are compared after every call with a field record maintained by the harness from the documented effect of each producer; arguments symbolic and unconstrained (rejected ones included).",
@@ -657,19 +657,19 @@ _b("C01",
    "n<=6; trees depth 2 width 2 over 6 leaf formats, depth 3 over 1, depth 1 width 2 over 13 formats with <=2 elements; boundaries also 65,535/65,536 bytes",
    ["trees beyond the stated depth/width", "items between 65,537 and 8,999,999 bytes other than the named sizes", "messages longer than two 9 MB items (a limit on the total message size above that is not seen)"])
 _b("C02",
-   "13 leaf formats x n<=2 symbolic elements, built directly and by filling an all-variable template (before and after a second fill); list trees depth<=2 width<=2 over 2 leaf formats; incomplete messages (4 kinds); item header for every size per format; items of 255/256 (W=1) or 256 payload bytes for every format; messages around one ASCII item of 300, 70,000 and 16,777,215 characters and around lists of 3 x 40,000 and 2 x 9,000,000 characters",
+   "13 leaf formats x n<=2 symbolic elements, built directly and by filling an all-variable template (before and after a second fill); list trees depth<=2 width<=2 over 2 leaf formats; incomplete messages (5 kinds, incl. the session id taken away again and both producer orders); item header for every size per format; items of 255/256 (W=1) or 256 payload bytes for every format; messages around one ASCII item of 300, 70,000 and 16,777,215 characters and around lists of 3 x 40,000 and 2 x 9,000,000 characters",
    "n<=5; trees as C01 thorough; item boundaries also 65,535/65,536 bytes",
    ["trees beyond the stated depth/width", "payload values of items above 2 elements other than 3 symbolic positions (first, middle, last) in boundary items"])
 _b("C03",
-   "14-byte frame + k<=3 arbitrary text bytes (frame fixed to a data message) and k<=1 with every frame byte arbitrary, against the reference decoder; 13 formats x n<=2 x 1..3 length bytes (non-minimal allowed) x 8 single corruptions; ASCII/binary items whose 2-3 length bytes are all arbitrary with 0/256/257/300 bytes present; length fields of different widths in sequence (4 layouts); decode->re-encode of list trees depth 2 width 2",
+   "14-byte frame + k<=3 arbitrary text bytes (frame fixed to a data message) and k<=1 with every frame byte arbitrary, against the reference decoder; 13 formats x n<=2 x 1..3 length bytes (non-minimal allowed) x 8 single corruptions; ASCII/binary/numeric items of 7..33 arbitrary payload bytes; ASCII/binary items whose 2-3 length bytes are all arbitrary with 0/256/257/300 bytes present; length fields of different widths in sequence (4 layouts); decode->re-encode of list trees depth 2 width 2",
    "k<=5 (k<=2 with arbitrary frame); n<=3; 1000 bytes present; trees over 4 leaf formats",
    ["message text longer than the bound without structure", "more than one simultaneous corruption in the structured family", "input slices with spare capacity (C07 sparecap covers the capacity clause)"])
 _b("C04",
-   "names k<=2 arbitrary bytes; ASCII items k<=2 characters (all 128 values); 1- and 2-byte numeric formats full range with n<=2 elements, 4/8-byte formats boundary menu; float menu (15 F4 / 12 F8 values incl. -0 and the float32 that double-rounds through float64) squared; 5 variable/ellipsis templates with ASCII bounds 0..12; 7 fixed accepted texts (print -> parse fixed point)",
+   "names k<=2 arbitrary bytes; ASCII items k<=2 characters (all 128 values); 1- and 2-byte numeric formats full range with n<=2 elements, 4/8-byte formats boundary menu; float menu (15 F4 / 12 F8 values incl. -0 and the float32 that double-rounds through float64) squared; 5 variable/ellipsis templates with ASCII bounds 0..12; 11 fixed accepted texts (print -> parse fixed point) incl. 70 messages in one text, trees 24 and 130 levels deep, lists of 110+60 siblings",
    "k<=4; n<=3; symbolic constants in the templates (full-range 32/64-bit decimal round trips were tried and dropped: z3 answers unknown on the digit arithmetic)",
    ["4- and 8-byte integer values outside the boundary menu", "float values outside the menu (strconv's shortest-digit printing and parsing run concretely, they are not encoded)", "messages whose single ellipsis carries a non-canonical name", "names the lexer reads as another token (excluded by the property)"])
 _b("C05",
-   "integer literals of 10 item types x sign: decimal k<=3 symbolic digits, hex 2, octal 3, binary 8, and literals straddling the limit of every width (limit/base with 1 symbolic trailing digit) in all four bases; one arbitrary byte directly behind a literal of 8 classes; two literals per item; wrong-kind literals; strings k<=3 bytes, mixed strings/codes; booleans; float menu in F4/F8 and mixed; radix digits outside the radix",
+   "integer literals of 10 item types x sign: decimal k<=3 symbolic digits, hex 2, octal 3, binary 8, and literals straddling the limit of every width (limit/base with 1 symbolic trailing digit) in all four bases, literals straddling 2^64-1 and one digit longer than it; signs that no digit follows; one arbitrary byte directly behind a literal of 8 classes; two literals per item; wrong-kind literals; strings k<=3 bytes, mixed strings/codes; booleans; float menu in F4/F8 and mixed; radix digits outside the radix",
    "decimal k<=5, hex 8, octal 6, binary 16 symbolic digits; straddling literals with 1-2 symbolic trailing digits; strings k<=5",
    ["decimal literals with a leading zero, '+' on unsigned items, '-0' on unsigned items (unspecified)", "control characters inside quoted strings other than CR/LF", "the text->float mapping of strconv.ParseFloat beyond the menu"])
 _b("C06",
@@ -697,23 +697,23 @@ _b("C11",
    "histories of length <=3",
    ["histories longer than the scenario sequences", "concurrent mutation (C17)"])
 _b("C12",
-   "every factory x every accepted Go argument type with the argument fully symbolic (1 element per call); fills of leaf variables (3 kinds x 4 Go types); binary strings k<=3; names k<=4 arbitrary bytes in 7 node kinds and with index accessors k<=2; ellipsis placement incl. two ellipses among plain variables x 5 map orders; duplicate names; message fields unconstrained; message fill keeps the header; message names k<=3",
+   "every factory x every accepted Go argument type with the argument fully symbolic (1 element per call); fills of leaf variables (3 kinds x 4 Go types); binary strings k<=3 arbitrary characters, also behind a concrete run of 6..70 digits; ASCII strings of k<=3 and 7, 8, 9, 16, 17, 33 arbitrary bytes; names k<=4 arbitrary bytes in 7 node kinds and with index accessors k<=2; ellipsis placement incl. two ellipses among plain variables x 5 map orders; duplicate names; message fields unconstrained; message fill keeps the header; message names k<=3",
    "all 10 Go types in fills; k<=6 names; binary strings k<=9",
    ["message names with non-ASCII whitespace", "binary string forms containing '_' (unspecified)"])
 _b("C13",
-   "header routine and byte-length routine for every count 0 <= n < 2^40 per format (one symbolic 64-bit count); factories at 0, 1, 3 elements and around 255 payload bytes for 14 formats (ASCII content partly arbitrary bytes; encoding requested twice with the first result overwritten); ASCII at 16,777,216 characters through the factory and through FillVariables; decoder read-back: all 1..3 length bytes arbitrary with 0/255/256 bytes present, mixed widths",
-   "factories also around 65,535 bytes, at the first size beyond the limit for all 14 formats and at the largest constructible size for 7 formats and the fill path (2M-16M elements)",
+   "header routine and byte-length routine for every count 0 <= n < 2^40 per format (one symbolic 64-bit count); factories at 0, 1, 3 elements and around 255 payload bytes for 14 formats (ASCII content partly arbitrary bytes; encoding requested twice with the first result overwritten); the first size beyond the limit for all 14 formats (ASCII also through FillVariables); decoder read-back: all 1..3 length bytes arbitrary with 0/255/256 bytes present, mixed widths",
+   "factories also around 65,535 bytes and at the largest constructible size for 7 formats and the fill path (2M-16M elements)",
    ["executing element loops of items above the materialised sizes", "lists of 16,777,216 elements made by ellipsis expansion", "messages longer than one 16,777,215-byte item or two 9 MB items (a decoder limit on the total message size above that is not seen: seeded change C13-d2)"])
 _b("C15",
-   "7 item types x 4 declaration forms x counts 0..2, 1 symbolic digit per bound (+ blank-padded variant with 2 digits, + 20-digit bounds that overflow int); list children carry declarations of their own; ASCII variables: bounds kept, printed, enforced on fill; direct construction with arbitrary ints; bounds through ellipsis expansion",
+   "7 item types x 4 declaration forms x counts 0..2, 1 symbolic digit per bound (+ blank-padded variant with 2 digits, + one arbitrary byte of {SP,TAB,LF,CR} as padding, + one element being a variable, + 20-digit bounds that overflow int); list children carry declarations of their own; ASCII variables: bounds kept, printed, enforced on fill; direct construction with arbitrary ints; bounds through ellipsis expansion",
    "14 types, counts 0..4, up to 5 symbolic digits per bound",
    ["declarations preceded by whitespace (position shift is C08)", "counts above 4"])
 _b("C16",
-   "leaves n<=2 and lists depth 1 width<=2 / depth 0 width 3 over 4 kinds, every variable/ellipsis placement, x 3 map orders; shared sub-items; duplicate names through fills; ASCII k<=3 arbitrary bytes; messages around a bare item of 10 kinds with/without a variable, directly and inside 1-2 lists; header routine for every size (never an error within the limit)",
+   "leaves n<=2 and lists depth 1 width<=2 / depth 0 width 3 over 4 kinds, every variable/ellipsis placement, x 3 map orders; shared sub-items; duplicate names through fills; ASCII k<=3 arbitrary bytes; messages around a bare item of 10 kinds with/without a variable, directly and inside 1-2 lists; header routine for every size (never an error within the limit); one U1 item with 66,000 variables",
    "n<=3; depth 1 width 2 over 2 and 3 kinds; depth 0 width 3 over 7 kinds with n<=2",
    ["constants other than the fixed menu (their independence is C09)", "lists nested three levels deep (more than 10 million shapes: did not finish in 2 h)"])
 _b("C17",
-   "13 operations (print, encode, list, fill, ellipsis expansion, producers, both parsers on accepted, rejected and deeply nested input, control messages) on one template and one complete message with symbolic constants x 4 map orders; objects nobody has observed yet (7 bare items, 1 message); results handed to callers (4 scenarios); histories b, a, b for every pair of operations; natively every operation in 8 goroutines x 25 iterations under the race detector",
+   "15 operations (print, encode, list, fill, ellipsis expansion, producers, both parsers on accepted, rejected, long rejected and deeply nested input, texts refused through the parser's panic recovery, control messages) on one template and one complete message with symbolic constants x 4 map orders; objects nobody has observed yet (7 bare items, 1 message); results handed to callers (4 scenarios); histories b, a, b for every pair of operations; natively every operation in 8 goroutines x 25 iterations under the race detector",
    "same",
    ["actual schedules beyond the 8-goroutine native runs", "operations on objects outside the menu", "state shared through sync/atomic or under a mutex (exempt from the write-set certificate; only the native runs and the histories see it)"])
 _b("C18",
@@ -721,6 +721,6 @@ _b("C18",
    "<=3 producer calls",
    ["longer sequences", "message names beyond the two-entry menu (C12 covers names)"])
 _b("C19",
-   "12 text kinds (variables, ellipses, header-only, 36 variables, wrong ellipsis numbers, two messages in one text, 34 warnings, every item type with shared names, k<=3 arbitrary leading bytes) : all 9x9 base pairs x 8 separators, 33 further pairs, 7 triples",
+   "17 text kinds (variables, ellipses, header-only, 36 variables, wrong ellipsis numbers, two messages in one text, 34 warnings, every item type with shared names, k<=3 arbitrary leading bytes, 70 messages in one text, trees 24 and 130 levels deep, 110+60 siblings, a 140,000-column line) : all 9x9 base pairs x 8 separators, 46 further pairs, 7 triples",
    "k<=4 leading bytes; 167 triples",
    ["texts outside the menu", "separators longer than 4 bytes"])
